@@ -24,9 +24,9 @@ import vlib
 WILD = {"ArgUseAfterFree", "KeywordFreesLit", "UndefFreesHeldBody"}
 SECTION8 = ["PendingReuse", "PaintBody", "MacroequalSpace"]
 
-QUICK = dict(ref=["peek", "t0", "redef", "redef2", "q3s", "q5s"], dev=["sec8", "t0", "redef", "redef2", "q1s", "q2s", "q3s", "q4s", "q5s"],
+QUICK = dict(ref=["peek", "t0", "redef", "redef2", "qp", "q3s", "q5s"], dev=["sec8", "t0", "redef", "redef2", "qp", "q1s", "q2s", "q3s", "q4s", "q5s"],
              simE=(6, 150), simC=(4, 120), audit=4000)
-THOROUGH = dict(ref=["peek2", "t0", "redef", "redef2", "q1", "q2", "q3", "q4", "q5s"], dev=["sec8", "t0", "redef", "redef2", "q1", "q2", "q3", "q4", "q5s"],
+THOROUGH = dict(ref=["peek2", "t0", "redef", "redef2", "qp", "q1", "q2", "q3", "q4", "q5s"], dev=["sec8", "t0", "redef", "redef2", "qp", "q1", "q2", "q3", "q4", "q5s"],
                 simE=(12, 600), simC=(8, 400), audit=30000)
 
 
@@ -143,6 +143,29 @@ def observe_C(objdir, c, objdir_hooks):
     return inper, bool(eqm), {"st": got[0], "out": [], "il_sha": vlib.sha(got[1])[:12]}
 
 
+# ---------------------------------------------------------------- text round trip of -E
+def roundtrip_E(objs, src, o):
+    """tokens of the unit == tokens of the text that plain `-E` prints for the unit.  None = holds."""
+    rc, text, err = vlib.cproc(objs["plain"], src, args=["-E"])
+    if rc != 0:
+        return {"why": "plain -E exits %d while the token dump exits 0" % rc}
+    o2 = tokens_of(objs["hooks"], text)
+    if o2["st"] == o["st"] and [(t["k"], t["s"]) for t in o2["out"]] == [(t["k"], t["s"]) for t in o["out"]]:
+        return None
+    return {"why": "tokens of the -E text differ from the tokens of the unit", "text": text[:600], "unit": show(o)[:600], "retokenised": show(o2)[:600]}
+
+
+def roundtrip_C(objs, src):
+    """IL of the unit == IL of the text `-E` prints for it (compilable units).  None = holds."""
+    rc, text, err = vlib.cproc(objs["plain"], src, args=["-E"])
+    if rc != 0:
+        return {"why": "-E exits %d on a unit that compiles" % rc}
+    a, b = il_of(objs["plain"], src), il_of(objs["plain"], text)
+    if a == b:
+        return None
+    return {"why": "IL of the -E text differs from the IL of the unit", "text": text[:600], "unit": a[0], "of_text": b[0] + " " + b[1][:200]}
+
+
 # ---------------------------------------------------------------- judging one case
 EXCL = "excluded(undefined by 6.10.3p11 / unterminated invocation / '(' lookahead over a directive)"
 
@@ -152,11 +175,17 @@ def observe(objs, c):
     if c["tag"] == "excl":
         return None
     if c["mode"] == "E":
-        o = tokens_of(objs["hooks"], render(c["prog"]), trace=c.get("_trace"))
+        src = render(c["prog"])
+        o = tokens_of(objs["hooks"], src, trace=c.get("_trace"))
         inper = any(conf(o, d) for d in c["per"])
         eqm = conf(o, dict(c["model"], out=[dict(t, x=True) for t in c["model"]["out"]]))
+        if o["st"] == "ok":
+            o["rt"] = roundtrip_E(objs, src, o)
         return inper, eqm, o
-    return observe_C(objs["plain"], c, objs["hooks"])
+    res = observe_C(objs["plain"], c, objs["hooks"])
+    if res[2]["st"] == "il":
+        res[2]["rt"] = roundtrip_C(objs, render(c["prog"]))
+    return res
 
 
 def judge(ctx, c, res, stats):
@@ -175,6 +204,16 @@ def judge(ctx, c, res, stats):
         return
     ctx.count(vlib.sha(mode + src), nontrivial=sum(c["np"]) > 0)
     fired = set(c["fired"])
+    if "rt" in o:
+        stats["text round trip:" + mode] += 1
+        if o["rt"] is not None:
+            # attributable to the pasting defect only while TextPaste is a known deviation and the model's text fails too
+            if not c.get("textok", True):
+                ctx.violation("dev:TextPaste", "-E text pastes tokens that replacement made adjacent", dict(o["rt"], source=src))
+                stats["known:TextPaste"] += 1
+            else:
+                ctx.violation("text:roundtrip:" + mode, o["rt"]["why"], dict(o["rt"], source=src))
+                stats["VIOLATION"] += 1
     if inper:
         stats["held:" + mode] += 1
         if c["tag"] == "dev":
@@ -323,6 +362,10 @@ def run_dev(ctx, sp):
 
 
 def run_hist(ctx):
+    # design record for the -E text: with the former rule (TextPaste) Inv_Text must fail on the pair family
+    r = _tlc(ctx, "Macro", "MC_Macro_qp_textpaste.cfg", workers=2, timeout=1200)
+    if r.rc != 12:
+        raise vlib.MachineryError("deviation TextPaste does not violate Inv_Text on space qp (rc=%s): the disjunct is vacuous" % r.rc)
     r = _tlc(ctx, "Macro", "MC_Macro_sec8_hist.cfg", workers=2, timeout=1200)
     if not r.ok:
         raise vlib.MachineryError("sec8_hist failed rc=%s:\n%s" % (r.rc, r.out[-3000:]))
